@@ -633,7 +633,7 @@ def run(chk: Check):
         # retries of a mission refused for missing weather (own PRNG stream: the ordinary stream is what it was)
         import random
         rrng = random.Random(f'C17-retry-{chk.seed}')
-        seqs += [gen_retry_sequence(rrng, canonical=(i == 0)) for i in range(chk.n(3, 16))]
+        seqs += [gen_retry_sequence(rrng, canonical=(i == 0)) for i in range(chk.n(2, 16))]
         seqs += [gen_sequence(chk.rng, weather_ok=(i < nw)) for i in range(chk.n(32, 400))]
         check_sequences(chk, seqs, guarded, gfix, wx)
         check_against_fresh_process(chk, wx)
